@@ -7,9 +7,20 @@ every renumbering + insertion-order shuffle p and every re-spelling s of m
 
 and two molecules that the reference enumerator (oracles/iso.py) finds non-isomorphic never share a canonical string.
 The two documented gaps are decided by oracles/o01_gaps.py (orbits of the stereo-free graph) and only counted (`gap_hits`).
+
+Coverage audit (every observable of the property's `observe_at` list, every option of the anchored entry points): on each description whose
+canonical string agrees the same relation is also read through `format(mol, spec)` for the canonical option sets SPECS, `atoms_order`
+(renumbered classes) and `smiles_atoms_order`; the first observation rotates between the entry points that fill each other's caches
+(`__str__`, `smiles_atoms_order`, `__format__(..., _return_order=True)`, `__hash__`); re-spellings come from every option of the random-order
+writer and `sticky_smiles`, and from four RDKit writer settings; numberings include numbers with gaps up to 10^5; `==` / `!=` are also
+read on pairs of different structures; input classes the atlas / corpus never reach are listed in bounded/d01_extra.py; the empty molecule.
+Failing inputs are keyed by a root-cause family only if the family's independent predicate holds (oracles/o01_families.py); the number of
+members of each family and how many of them fail is reported (`notes.families`).
 """
+import collections
 import itertools
 import random
+import re
 
 from vlib import env
 from vlib.report import pmap
@@ -38,6 +49,90 @@ def _differs(m, m0, s0, h0):
     return None
 
 
+# canonical writer options of `Smiles.__format__` ('r' = random order is used for the re-spellings, not here); 'm' prints the atom numbers,
+# which are stripped before comparing
+SPECS = ('a', '!s', 'A', 'h', '!b', '!z', '!x', 'm', 'ah', 'A!s!z', 'hA!b!x')
+# options of the library's random-order writer that still give a SMILES of the same structure; 'sticky' = MoleculeSmiles.sticky_smiles with a
+# seeded left (and, for connected molecules with a terminal atom, right) end, nothing removed (not used for radicals: it writes no CX part)
+RSPECS = ('r', 'ra', 'rh', 'rA', 'sticky')
+
+
+def _sticky(m0, r):
+    nums = list(m0._atoms)
+    left = r.choice(nums)
+    ends = [n for n in nums if len(m0._bonds[n]) == 1 and n != left]
+    if ends and m0.connected_components_count == 1 and r.random() < .5:
+        try:
+            return m0.sticky_smiles(left, r.choice(ends), tries=30)
+        except Exception as e:
+            if str(e) != 'generation of smiles failed':  # documented outcome of the randomised search
+                raise
+    return m0.sticky_smiles(left)
+_MAP = re.compile(r':\d+(?=\])')
+
+
+def _fmt(m, spec):
+    t = format(m, spec)
+    return _MAP.sub('', t) if 'm' in spec.replace('!s', '') else t
+
+
+def _classes(ao):
+    return sorted(collections.Counter(ao.values()).items())
+
+
+def _observe_ref(m0):
+    """the further observables of the property on the reference description"""
+    from oracles import iso
+    return {'specs': {sp: _fmt(m0, sp) for sp in SPECS}, 'ao': dict(m0.atoms_order), 'classes': _classes(m0.atoms_order),
+            'sao': tuple(m0.smiles_atoms_order), 'keys': {n: iso.atom_key(a) for n, a in m0.atoms()},
+            'bonds': [(a, b, bd.order) for a, b, bd in m0.bonds()]}
+
+
+def _touch(m, j):
+    """vary the order in which the memoised observables are first computed (each entry point fills the caches of the others)"""
+    k = j % 4
+    if k == 1:
+        m.smiles_atoms_order
+    elif k == 2:
+        m.__format__('', _return_order=True)
+    elif k == 3:
+        hash(m)
+        m.smiles
+
+
+def _extra(m, ref, j, amap, n_specs):
+    """observables other than str / == / hash on a description whose canonical string already agrees with the reference:
+    `format(mol, spec)` for `n_specs` canonical option sets (rotating with j), `atoms_order` (class sizes; the renumbered reference
+    classes when the atom map is known), `smiles_atoms_order` (the position-wise map onto the reference order maps equal atoms onto equal
+    atoms and bonds onto bonds of the same order).  Returns None or (observable, text)."""
+    from oracles import iso
+    k = len(SPECS)
+    for i in range(n_specs):
+        sp = SPECS[(n_specs * j + i) % k]
+        t = _fmt(m, sp)
+        if t != ref['specs'][sp]:
+            return f'format({sp})', f'format(mol, {sp!r}) differs: {ref["specs"][sp]!r} vs {t!r}'
+    ao = m.atoms_order
+    if _classes(ao) != ref['classes']:
+        return 'atoms_order', f'atoms_order has other class sizes: {ref["classes"]} vs {_classes(ao)}'
+    if amap is not None and any(ao[amap[n]] != c for n, c in ref['ao'].items()):
+        return 'atoms_order', 'atoms_order is not the renumbered atoms_order of the reference description'
+    sao, sao0 = m.smiles_atoms_order, ref['sao']
+    if len(sao) != len(sao0) or set(sao) != set(m._atoms):
+        return 'smiles_atoms_order', f'smiles_atoms_order {sao!r} is not an order of the atoms of the molecule'
+    g = dict(zip(sao0, sao))
+    for n0, k0 in ref['keys'].items():
+        if iso.atom_key(m._atoms[g[n0]]) != k0:
+            return 'smiles_atoms_order', f'atom {g[n0]} at position {sao0.index(n0)} of smiles_atoms_order is not the atom the reference has there'
+    if sum(1 for _ in m.bonds()) != len(ref['bonds']):
+        return 'smiles_atoms_order', 'number of bonds differs'
+    for a, b, o in ref['bonds']:
+        bd = m._bonds[g[a]].get(g[b])
+        if bd is None or bd.order != o:
+            return 'smiles_atoms_order', f'position-wise map of smiles_atoms_order does not keep bond {a}-{b} of the reference'
+    return None
+
+
 def _rdkit_mol(text):
     from rdkit import Chem, RDLogger
     RDLogger.DisableLog('rdApp.*')
@@ -51,23 +146,31 @@ def _n_labels(m):
     return sum(a.stereo is not None for _, a in m.atoms()) + sum(b.stereo is not None for *_, b in m.bonds())
 
 
-def _rd_random(rm, r, kek):
-    """deterministic 'random' RDKit spelling: seeded atom renumbering + rooted non-canonical output"""
+def _rd_random(rm, r, variant):
+    """deterministic 'random' RDKit spelling: seeded atom renumbering + rooted non-canonical output; variant 0 aromatic, 1 Kekule,
+    2 aromatic with every bond written and RDKit's own random branch order, 3 Kekule with every hydrogen count written"""
     from rdkit import Chem
     n = rm.GetNumAtoms()
     order = list(range(n))
     r.shuffle(order)
     m2 = Chem.RenumberAtoms(rm, order)
+    kek = variant in (1, 3)
     if kek:
         m2 = Chem.Mol(m2)
         Chem.Kekulize(m2, clearAromaticFlags=True)
-    return Chem.MolToSmiles(m2, canonical=False, rootedAtAtom=r.randrange(n), kekuleSmiles=kek)
+    root = r.randrange(n)
+    if variant == 2:
+        from rdkit import rdBase
+        rdBase.SeedRandomNumberGenerator(r.randrange(1, 2 ** 31 - 1))
+        return Chem.MolToSmiles(m2, canonical=False, doRandom=True, allBondsExplicit=True)
+    return Chem.MolToSmiles(m2, canonical=False, rootedAtAtom=root, kekuleSmiles=kek, allHsExplicit=variant == 3)
 
 
-def _check_molecule(ident, m0, rec, perms, n_shuffle, n_r, n_rd, r, rd_source=None, do_remap=True):
-    """run every relation of C01 on one reference molecule.  Returns (ncases, keys, gap, mismatches, info) where
+def _check_molecule(ident, m0, rec, perms, n_shuffle, n_r, n_rd, r, rd_source=None, do_remap=True, n_specs=2):
+    """run every relation of C01 on one reference molecule.  `perms`: node -> atom number - 1 lists, None (seeded permutation of 1..n) or
+    'sparse' (seeded numbers with gaps up to 10^5).  Returns (ncases, keys, gap, mismatches, info) where
     mismatches = [(relation, what, witness)] (first per relation)"""
-    from bounded import domains as D, d01_molgen as G
+    from bounded import domains as D, d01_molgen as G, d01_extra as X
     from oracles import iso
     from oracles.o01_gaps import gaps
     from oracles.o01_stereo import stereo_isomorphic
@@ -78,15 +181,39 @@ def _check_molecule(ident, m0, rec, perms, n_shuffle, n_r, n_rd, r, rd_source=No
     ncases = 0
     keys = set()
     bad = {}
-    info = {'rd_unparsed': 0, 'rd_rejected': 0, 'rd_not_isomorphic': 0, 'rd_undecided': 0, 'dropped': 0, 'samples': []}
+    info = {'rd_unparsed': 0, 'rd_rejected': 0, 'rd_not_isomorphic': 0, 'rd_undecided': 0, 'dropped': 0, 'samples': [], 'sticky_failed': 0}
+    ref = _observe_ref(m0)
+    nums = list(m0._atoms)  # node v of the record is atom nums[v] of the reference (rec_of / build_rec keep the order)
+    j = 0  # running index of the descriptions: rotates the option sets and the order of the first observation
 
     def note(rel, what, witness):
         if rel not in bad:
             bad[rel] = (rel, what, witness)
 
+    def judge(rel, m, witness, amap, prepare=None):
+        """all observables of one description; `prepare` = what turns the raw description into the normalised one"""
+        nonlocal j
+        j += 1
+        try:
+            if prepare is not None:
+                m = prepare(m)
+            _touch(m, j)
+            d = _differs(m, m0, s0, h0)
+        except Exception as e:
+            note(rel, f'reading / normalising / writing the description raised {type(e).__name__}: {e}', witness)
+            return
+        if d:
+            note(rel, d, witness)
+            return
+        x = _extra(m, ref, j, amap, n_specs)
+        if x:
+            note(f'{rel}:{x[0]}', x[1], witness)
+
     # renumbering + insertion order (all given permutations, then seeded ones)
     first = True
     for p in perms:
+        if isinstance(p, str):  # 'sparse'
+            p = X.sparse_numbers(n, r)
         m, dropped, w = G.shuffled_build(rec, r, perm=list(p) if p is not None else None)
         if first:  # harness sanity: the rebuilt molecule is the same constitution (independent enumerator)
             first = False
@@ -95,35 +222,37 @@ def _check_molecule(ident, m0, rec, perms, n_shuffle, n_r, n_rd, r, rd_source=No
         ncases += 1
         if dropped:
             info['dropped'] += 1
-        try:
-            D.norm(m)
-            d = _differs(m, m0, s0, h0)
-        except Exception as e:
-            d = f'normalising the rebuilt molecule raised {type(e).__name__}: {e}'
-        if d:
-            note('renumber+insertion', d, w)
+        judge('renumber+insertion', m, w, {nums[v]: x + 1 for v, x in enumerate(w['perm'])}, D.norm)
         if n > 1:
             keys.add((s0, 'renumber+insertion'))
     if do_remap and n > 1:
         for _ in range(n_shuffle):
-            c, mp = D.renumber(m0, r, offset=r.choice((0, 0, 7, 1000)))
+            off = r.choice((0, 0, 7, 1000, None))
+            if off is None:  # numbers with gaps
+                mp = dict(zip(nums, r.sample(range(1, 100000), n)))
+                c = m0.copy()
+                c.remap(mp)
+            else:
+                c, mp = D.renumber(m0, r, offset=off)
             ncases += 1
-            d = _differs(c, m0, s0, h0)
-            if d:
-                note('remap', d, {'remap': {str(a): b for a, b in mp.items()}})
+            judge('remap', c, {'remap': {str(a): b for a, b in mp.items()}}, mp)
             keys.add((s0, 'remap'))
-    # re-spellings: chython's own random writer
-    for _ in range(n_r):
-        text = format(m0, 'r')
+    # re-spellings: chython's own random writer (every option of it that still writes the whole structure)
+    k0 = r.randrange(len(RSPECS))
+    for i in range(n_r):
+        spec = RSPECS[(k0 + i) % len(RSPECS)] if i else 'r'
+        if spec == 'sticky' and m0.is_radical:
+            spec = 'r'
+        if spec == 'sticky':
+            try:
+                text = _sticky(m0, r)
+            except Exception:  # sticky_smiles is not an anchor of C01: a failure of it is counted, the spelling is taken from format(mol, 'r')
+                info['sticky_failed'] += 1
+                spec = 'r'
+        if spec != 'sticky':
+            text = format(m0, spec)
         ncases += 1
-        try:
-            m = smiles(text)
-            D.norm(m)
-            d = _differs(m, m0, s0, h0)
-        except Exception as e:  # the library fails on its own spelling of a valid molecule
-            d = f'reading / normalising the spelling raised {type(e).__name__}: {e}'
-        if d:
-            note('respell-chython', d, {'text': text})
+        judge('respell-chython', text, {'text': text, 'spec': spec}, None, lambda t: D.norm(smiles(t)))
         if text != s0 and n > 1:
             keys.add((s0, 'respell-chython'))
     # re-spellings: RDKit
@@ -133,9 +262,10 @@ def _check_molecule(ident, m0, rec, perms, n_shuffle, n_r, n_rd, r, rd_source=No
             info['rd_unparsed'] += 1
         else:
             src = rd_source if rd_source is not None else s0
+            v0 = r.choice((0, 2))
             for i in range(n_rd):
                 try:
-                    text = _rd_random(rm, r, bool(i % 2))
+                    text = _rd_random(rm, r, (v0 + i) % 4)
                 except Exception:
                     info['rd_unparsed'] += 1
                     continue
@@ -158,9 +288,7 @@ def _check_molecule(ident, m0, rec, perms, n_shuffle, n_r, n_rd, r, rd_source=No
                         info['samples'].append(('not-isomorphic', text, src, str(m)))
                     continue
                 ncases += 1
-                d = _differs(m, m0, s0, h0)
-                if d:
-                    note('respell-rdkit', d, {'text': text, 'rdkit_source': src})
+                judge('respell-rdkit', m, {'text': text, 'rdkit_source': src}, None)
                 if text != s0 and n > 1:
                     keys.add((s0, 'respell-rdkit'))
     gap = gaps(m0)
@@ -177,13 +305,13 @@ def _kek_view(m0):
 
 def _perms_for(n, has_stereo, full_limit, k_seeded, r):
     if n <= (min(full_limit, 5) if has_stereo else full_limit):
-        return list(itertools.permutations(range(n)))
-    return [None] * k_seeded
+        return list(itertools.permutations(range(n))) + ['sparse'] * min(n, 2)
+    return [None if i % 4 else 'sparse' for i in range(k_seeded)]  # every fourth numbering has gaps / numbers up to 10^5
 
 
 def _atlas_worker(job):
     from bounded import domains as D, d01_molgen as G
-    recs, full_limit, k_seeded, n_r, n_rd, tag = job
+    recs, full_limit, k_seeded, n_r, n_rd, tag, n_specs = job
     res = []
     for rec in recs:
         r = D.rnd(f'{tag}:{rec["id"]}')
@@ -191,32 +319,40 @@ def _atlas_worker(job):
         m0, dropped0 = G.build_rec(rec)
         D.norm(m0)
         n = len(rec['atoms'])
-        anchor = rec['id'].startswith('anchor:')  # fixed witnesses of the recorded defect families: enough draws to fire in every run
+        # fixed witnesses of the recorded defect families: enough draws to fire in every run; the writer fault of the diene family shows in
+        # about one of ten random spellings, so every input its predicate holds for gets the same number of spellings
+        from oracles.o01_families import diene_ring_closure_direction
+        anchor = rec['id'].startswith('anchor:') or diene_ring_closure_direction(m0)
         symring = rec['id'].startswith(('sym:', 'biaryl:'))
+        extra = rec['id'].startswith('x:')  # input classes of the coverage audit: every canonical option set on every description
         perms = _perms_for(n, bool(G.n_stereo(rec)), full_limit, 60 if anchor else 30 if symring else k_seeded, r)
-        ncases, keys, gap, bad, info = _check_molecule(rec['id'], m0, rec, perms, 1, 120 if anchor else n_r, n_rd, r)
+        ncases, keys, gap, bad, info = _check_molecule(rec['id'], m0, rec, perms, 2 if extra else 1, 120 if anchor else 8 if extra else n_r,
+                                                       4 if extra else n_rd, r, n_specs=len(SPECS) if extra else n_specs)
         res.append((rec['id'], str(m0), ncases, keys, gap, bad, info, _n_labels(m0), _family(m0, gap, bad)))
     return res
 
 
 def _family(m0, gap, bad):
-    """root-cause family of a failing input outside the documented gaps (independent predicates of oracles/o01_families.py)"""
-    if not bad or gap[0] or gap[1]:
+    """root-cause family of an input outside the documented gaps (independent predicates of oracles/o01_families.py), whether it fails or
+    not: members that pass are counted (`family_members_passing`), a family predicate must not hold for inputs it does not explain"""
+    if gap[0] or gap[1]:
         return None
     from oracles.o01_families import c01_family
-    return c01_family(m0, {b[0] for b in bad})
+    return c01_family(m0, {b[0].split(':')[0] for b in bad})
 
 
 def _corpus_worker(job):
     from bounded import domains as D, d01_molgen as G
-    texts, n_perm, n_r, n_rd, tag = job
+    texts, n_perm, n_r, n_rd, tag, n_specs = job
     res = []
     for text in texts:
         r = D.rnd(f'{tag}:{text}')
         random.seed(f'{env.SEED}:{tag}:{text}')
         m0 = D.parse(text)
         rec = G.rec_of(m0, text)
-        ncases, keys, gap, bad, info = _check_molecule(text, m0, rec, [None] * n_perm, 1, n_r, n_rd, r, rd_source=text)
+        from oracles.o01_families import diene_ring_closure_direction
+        ncases, keys, gap, bad, info = _check_molecule(text, m0, rec, [None] * (n_perm - 1) + ['sparse'], 1,
+                                                       120 if diene_ring_closure_direction(m0) else n_r, n_rd, r, rd_source=text, n_specs=n_specs)
         res.append((text, str(m0), ncases, keys, gap, bad, info, _n_labels(m0), _family(m0, gap, bad)))
     return res
 
@@ -255,6 +391,13 @@ def bounded(run):
               f'identical rings, O / N / S / N-N / C=O at every position, both relative orientations, seeded two-substituent patterns) and '
               f'{len(G.BIARYL_SMILES)} symmetric biaryl / fused aromatic systems x 30 seeded numberings + insertion orders, remap, 3 + 2 re-spellings')
     recs += sym
+    from bounded import d01_extra as X
+    xrecs = [rec for _, rec in X.class_records()] + X.closure_records(1 if quick else 3) + (X.closure_records(1, 60) if not quick else [])
+    run.bound(f'input classes of the coverage audit (bounded/d01_extra.py): {len(xrecs)} fixed molecules - ' +
+              ', '.join(f'{len(v)} {k}' for k, v in X.CLASSES.items()) + f', {len(xrecs) - sum(map(len, X.CLASSES.values()))} with >= 10 open ring '
+              f'closures - x {k_seeded} seeded numberings + insertion orders (all n! for n <= {full_limit}), 2 remap, 8 chython and 4 RDKit '
+              f're-spellings, every canonical option set on every description')
+    recs += xrecs
     from oracles.o01_families import ANCHORS
     anchors = [G.rec_of(D.parse(s), f'anchor:{s}') for fam in ANCHORS.values() for s in fam]
     run.bound(f'anchors: {len(anchors)} fixed witnesses of the recorded defect families (oracles/o01_families.py), identical in every tier / seed, '
@@ -267,10 +410,20 @@ def bounded(run):
     run.bound(f'atlas permutations: all n! numberings for n <= {full_limit} (n <= 5 when the molecule carries stereo labels), {k_seeded} seeded '
               f'numberings above; each with a seeded atom / bond insertion order and bond direction; + 1 remap(); 3 chython random '
               f'spellings; 2 RDKit random spellings')
+    n_specs, n_specs_corpus = (1, 2) if quick else (2, 3)
+    run.bound(f'atom numbers: 1..n permuted; every fourth seeded rebuild (2 extra ones where all n! are run, 1 of 3 in the corpus) and a fifth of '
+              f'the remap() calls use n distinct numbers drawn from 0..10^5 (gaps, not in order, > 999, > 65535); remap() offsets 0 / 7 / 1000')
+    run.bound(f'observables per description: str, ==, !=, hash; then {n_specs} (corpus: {n_specs_corpus}) of the {len(SPECS)} canonical option sets of format(mol, spec) '
+              f'{SPECS} (rotating with the description index; all of them for the audit classes; atom-map numbers of "m" stripped), atoms_order '
+              f'(class sizes; equality with the renumbered reference classes when the atom map is known: rebuilds and remap), '
+              f'smiles_atoms_order (position-wise map onto the reference order keeps atoms and bond orders); the first observation rotates '
+              f'between str, smiles_atoms_order, format(mol, "", _return_order=True) and hash + .smiles')
+    run.bound(f're-spelling writers: format(mol, spec) for spec in {RSPECS[:-1]} and sticky_smiles(left[, right]) with seeded ends (first spelling always "r"); RDKit: aromatic / Kekule rooted '
+              f'non-canonical output of a renumbered molecule, doRandom + allBondsExplicit, Kekule + allHsExplicit (rotating)')
     # larger molecules first inside round-robin chunks to balance load
     recs_sorted = anchors + sorted(recs[len(anchors):], key=lambda x: -len(x['atoms']))
     nchunk = max(env.NPROC * 6, 1)
-    jobs = [(recs_sorted[i::nchunk], full_limit, k_seeded, 3, 2, 'b01a') for i in range(nchunk) if recs_sorted[i::nchunk]]
+    jobs = [(recs_sorted[i::nchunk], full_limit, k_seeded, 3, 2, 'b01a', n_specs) for i in range(nchunk) if recs_sorted[i::nchunk]]
     atlas_res = [x for part in pmap(_atlas_worker, jobs) for x in part]
     atlas_res.sort(key=lambda x: (not x[0].startswith('anchor:'),))  # anchors first: they become the recorded witnesses
 
@@ -279,12 +432,12 @@ def bounded(run):
     run.bound(f'corpus: {len(texts)} distinct SMILES of pach/lipophilicity.csv x (3 seeded renumbering+insertion-order rebuilds from the '
               f'Kekule form + 1 remap + 3 chython random spellings + 3 RDKit random spellings, RDKit reading the original text)')
     nchunk = max(env.NPROC * 4, 1)
-    jobs = [(texts[i::nchunk], 3, 3, 3, 'b01c') for i in range(nchunk) if texts[i::nchunk]]
+    jobs = [(texts[i::nchunk], 3, 3, 3, 'b01c', n_specs_corpus) for i in range(nchunk) if texts[i::nchunk]]
     corpus_res = [x for part in pmap(_corpus_worker, jobs) for x in part]
 
     notes = {'gap1_molecules': 0, 'gap2_molecules': 0, 'gap_hits': 0, 'gap_hit_samples': [], 'rdkit_unparsed': 0,
              'rdkit_text_rejected_by_reader': 0, 'rdkit_text_not_stereo_isomorphic': 0, 'rdkit_text_undecided': 0,
-             'rdkit_samples': [], 'labels_not_accepted_on_rebuild': 0, 'molecules': 0, 'stereo_molecules': 0}
+             'rdkit_samples': [], 'labels_not_accepted_on_rebuild': 0, 'molecules': 0, 'stereo_molecules': 0, 'families': {}, 'sticky_smiles_failed': 0}
     by_string = {}
     for domain, res in (('atlas', atlas_res), ('corpus', corpus_res)):
         for ident, s0, ncases, keys, gap, bad, info, nlab, fam in res:
@@ -300,6 +453,7 @@ def bounded(run):
                 if len(notes['rdkit_samples']) < 10:
                     notes['rdkit_samples'].append(list(x))
             notes['labels_not_accepted_on_rebuild'] += info['dropped']
+            notes['sticky_smiles_failed'] += info['sticky_failed']
             run.case(ncases)
             for k in keys:
                 run.case(0, key=k)
@@ -307,6 +461,12 @@ def bounded(run):
                 run.case(0, sample={'domain': domain, 'input': ident, 'canonical': s0, 'evaluations': ncases,
                                     'relations': sorted({k[1] for k in keys}), 'gap': list(gap)})
             by_string.setdefault(s0, []).append((domain, ident))
+            if fam:
+                st = notes['families'].setdefault(fam, {'members': 0, 'failing': 0, 'passing_samples': []})
+                st['members'] += 1
+                st['failing'] += bool(bad)
+                if not bad and len(st['passing_samples']) < 5:
+                    st['passing_samples'].append(ident)
             if not bad:
                 continue
             if gap[0] or gap[1]:
@@ -322,11 +482,40 @@ def bounded(run):
                           witness={'domain': domain, 'input': ident, 'record': by_id.get(ident), 'relation': rel, **witness},
                           native={'reference': s0, 'differences': {b[0]: b[1] for b in bad}})
 
+    # the empty molecule: two empty containers are two descriptions of one structure
+    from chython import MoleculeContainer
+    run.case(1, key=('', 'empty'))
+    try:
+        e1, e2 = MoleculeContainer(), MoleculeContainer()
+        ok = str(e1) == str(e2) == '' and e1 == e2 and hash(e1) == hash(e2) and e1.atoms_order == {} and tuple(e1.smiles_atoms_order) == ()
+        what = None if ok else f'empty molecules: str {str(e1)!r} / {str(e2)!r}, == {e1 == e2}, hashes {hash(e1)} / {hash(e2)}'
+    except Exception as e:
+        what = f'str / == / hash of an empty MoleculeContainer raised {type(e).__name__}: {e}'
+    if what:
+        run.violation('c01:empty-molecule', f'C01 empty: {what}', witness={'relation': 'empty'}, native={'outcome': what})
+
     # no over-merging: molecules sharing a canonical string are isomorphic for the reference enumerator
     def mol_of(domain, ident):
         if domain == 'atlas':
             return D.norm(G.build_rec(by_id[ident])[0])
         return D.parse(ident)
+
+    # == / != of different structures: neighbours in the sorted list of canonical strings (closest texts: stereo isomers, isotopologues, charge
+    # variants) never compare equal; the strings differ, so this reads Smiles.__eq__ / __ne__ only
+    strings = sorted(by_string)
+    step = max(1, len(strings) // (400 if quick else 2000))
+    n_ne = 0
+    for sa, sb in zip(strings[::step], strings[1::step]):
+        ma, mb = mol_of(*by_string[sa][0]), mol_of(*by_string[sb][0])
+        if str(ma) != sa or str(mb) != sb:
+            continue  # a member of a recorded family / gap rebuilt with another tie: judged above
+        n_ne += 1
+        run.case(1, key=(sa, 'not-equal'))
+        if (ma == mb) or (mb == ma) or not (ma != mb) or not (mb != ma):
+            run.violation(f'not-equal:{_h(sa + sb)}:{sa}|{sb}', f'C01 ==: molecules with the canonical strings {sa!r} and {sb!r} compare equal (or != is not the negation of ==)',
+                          witness={'relation': 'not-equal', 'a': by_string[sa][0], 'b': by_string[sb][0], 'record_a': by_id.get(by_string[sa][0][1]),
+                                   'record_b': by_id.get(by_string[sb][0][1])}, native={'a': sa, 'b': sb})
+    run.bound(f'== / != of different structures: {n_ne} pairs of neighbouring canonical strings of the domain (every {step}th), both directions')
     pairs = 0
     for s0, members in by_string.items():
         if len(members) < 2:
@@ -390,6 +579,20 @@ def replay(rec):
         m = D.parse(ident)
         return m, G.rec_of(m, ident)
 
+    if rel == 'empty':
+        from chython import MoleculeContainer
+        try:
+            e1, e2 = MoleculeContainer(), MoleculeContainer()
+            print('  str:', repr(str(e1)), ' ==:', e1 == e2, ' hashes equal:', hash(e1) == hash(e2))
+            return str(e1) == '' and e1 == e2 and hash(e1) == hash(e2)
+        except Exception as e:
+            print(f'  {type(e).__name__}: {e}')
+            return False
+    if rel == 'not-equal':
+        a = source(w.get('record_a'), w['a'][1])[0]
+        b = source(w.get('record_b'), w['b'][1])[0]
+        print('  a:', str(a), ' b:', str(b), ' ==:', a == b, ' !=:', a != b)
+        return str(a) == str(b) or (not (a == b) and not (b == a) and (a != b) and (b != a))
     if rel == 'collision':
         a = source(w.get('record_a'), w['a'][1])[0]
         b = source(w.get('record_b'), w['b'][1])[0]
@@ -401,17 +604,27 @@ def replay(rec):
         print('  a:', str(a), ' b:', str(b))
         return str(a) == str(b) or not iso.is_isomorphic(a, b)
     m0, record = source(w.get('record'), w['input'])
-    if rel == 'renumber+insertion':
+    base = rel.split(':')[0]
+    amap = None
+    nums = list(m0._atoms)
+    if base == 'renumber+insertion':
         m, _ = G.build_rec(record, w['perm'], w['node_order'], w['edge_order'], set(w['flip_edges']))
         D.norm(m)
-    elif rel == 'remap':
+        amap = {nums[v]: x + 1 for v, x in enumerate(w['perm'])}
+    elif base == 'remap':
         m = m0.copy()
-        m.remap({int(a): b for a, b in w['remap'].items()})
+        amap = {int(a): b for a, b in w['remap'].items()}
+        m.remap(amap)
     else:
         m = smiles(w['text'])
         D.norm(m)
     print('  reference:', str(m0), ' other description:', str(m), ' ==:', m == m0, ' hashes equal:', hash(m) == hash(m0))
-    return _differs(m, m0, str(m0), hash(m0)) is None
+    if _differs(m, m0, str(m0), hash(m0)) is not None:
+        return False
+    x = _extra(m, _observe_ref(m0), 0, amap, len(SPECS))
+    if x:
+        print('  ', x[1])
+    return x is None
 
 
 def _unjson(record):
